@@ -233,6 +233,64 @@ impl Atoms {
     }
 }
 
+/// Some(d) if every word of L(r) has length d and L(r) is not empty (a sufficient syntactic test)
+pub fn uniform_len(r: &Ref) -> Option<u64> {
+    match r {
+        Ref::Eps => Some(0),
+        Ref::Range(..) => Some(1),
+        Ref::Cat(v) => {
+            let mut n = 0u64;
+            for x in v {
+                n += uniform_len(x)?;
+            }
+            Some(n)
+        }
+        Ref::Or(v) if !v.is_empty() => {
+            let d = uniform_len(&v[0])?;
+            for x in &v[1..] {
+                if uniform_len(x)? != d {
+                    return None;
+                }
+            }
+            Some(d)
+        }
+        Ref::Loop(x, lo, Some(hi)) if lo == hi => Some(uniform_len(x)? * *lo as u64),
+        _ => None,
+    }
+}
+
+fn same_shape(a: &Ref, b: &Ref) -> bool {
+    match (a, b) {
+        (Ref::None, Ref::None) | (Ref::Eps, Ref::Eps) => true,
+        (Ref::Range(a1, b1), Ref::Range(a2, b2)) => a1 == a2 && b1 == b2,
+        (Ref::Cat(x), Ref::Cat(y)) | (Ref::Or(x), Ref::Or(y)) | (Ref::And(x), Ref::And(y)) => x.len() == y.len() && x.iter().zip(y.iter()).all(|(p, q)| same_shape(p, q)),
+        (Ref::Not(x), Ref::Not(y)) => same_shape(x, y),
+        (Ref::Loop(x, l1, h1), Ref::Loop(y, l2, h2)) => l1 == l2 && h1 == h2 && same_shape(x, y),
+        _ => false,
+    }
+}
+
+/// A cheap sufficient argument that two expressions denote different languages, for the cases where the reference
+/// automata are out of reach: two loops over the same body, all of whose words have the same non-zero length, denote
+/// the same language only if their ranges contain the same repetition counts. Some(witness description) if different.
+pub fn provably_different(a: &Ref, b: &Ref) -> Option<String> {
+    if let (Ref::Loop(x, l1, h1), Ref::Loop(y, l2, h2)) = (a, b) {
+        if same_shape(x, y) && uniform_len(x).map_or(false, |d| d > 0) {
+            let set = |l: u32, h: Option<u32>| -> Option<(u32, Option<u32>)> {
+                match h {
+                    Some(h) if h < l => None,
+                    _ => Some((l, h)),
+                }
+            };
+            let (s1, s2) = (set(*l1, *h1), set(*l2, *h2));
+            if s1 != s2 {
+                return Some(format!("loops over the same fixed-length body with repetition counts {:?} and {:?}", s1, s2));
+            }
+        }
+    }
+    None
+}
+
 /// Some(ranges) if r denotes a rigid word: a single range, epsilon, or a concatenation of ranges
 pub fn rigid_word(r: &Ref) -> Option<Vec<(u32, u32)>> {
     match r {
